@@ -37,16 +37,28 @@ class Scale(nn.Module):
 class Affine(nn.Module):
     """Unsupported *trainable* leaf (has parameters, is not Linear/Conv2d)."""
 
-    def __init__(self, n):
+    def __init__(self, n, dim=-1):
         super().__init__()
         self.gain = nn.Parameter(torch.ones(n))
         self.shift = nn.Parameter(torch.zeros(n))
+        self.dim = dim
 
     def forward(self, x):
         shape = [1] * x.dim()
-        idx = 1 if x.dim() == 4 else x.dim() - 1
+        idx = self.dim % x.dim()
         shape[idx] = -1
         return x * self.gain.view(shape) + self.shift.view(shape)
+
+
+class Residual(nn.Module):
+    """x + fn(x): the gradient w.r.t. fn's output is shared with the skip branch."""
+
+    def __init__(self, fn):
+        super().__init__()
+        self.fn = fn
+
+    def forward(self, x):
+        return x + self.fn(x)
 
 
 class MyLinear(nn.Linear):
@@ -74,6 +86,10 @@ def build_model(spec, dtype=torch.float32):
         elif t == 'conv':
             m = (MyConv2d if L.get('sub') else nn.Conv2d)(L['cin'], L['cout'], tuple(L['k']), stride=tuple(L['s']),
                                                           padding=tuple(L['p']), bias=L['bias'])
+        elif t == 'res_linear':
+            m = Residual(nn.Linear(L['n'], L['n'], bias=L['bias']))
+        elif t == 'res_conv':
+            m = Residual(nn.Conv2d(L['n'], L['n'], 3, padding=1, bias=L['bias']))
         elif t == 'pool':
             m = nn.AdaptiveAvgPool2d((L['oh'], L['ow']))
         elif t == 'flatten':
@@ -85,7 +101,7 @@ def build_model(spec, dtype=torch.float32):
         elif t == 'bn':
             m = nn.BatchNorm2d(L['n'])
         elif t == 'affine':
-            m = Affine(L['n'])
+            m = Affine(L['n'], L.get('dim', -1))
         elif t == 'scale':
             m = Scale(L['f'])
         else:
